@@ -208,7 +208,12 @@ def run(ctx: core.Ctx):
                    label="callbacks and (un)registrations under a client-side lock (a run that does not finish is a violation)", accept=False)
     b2check.run_b2(ctx, lambda rng_, th: [(_gen.subunit_updates(rng_, T), rng_.randrange(10 ** 9), rng_.choice([0, 3, 6])) for _ in range(6000 if th else 150)], ["C09u"],
                    label="update callback of a subunit object on a live connection: reports right behind the synchronisation reply and right after initialize() (monitor only)", accept=False)
-    # exhaustive within a bound: every schedule up to 3 (thorough: 5) deviations from the canonical one, on small scenarios
+    # a subunit object registers its message callback while it is being constructed: lines arriving while another thread is anywhere inside
+    # a constructor must not be lost for the other callbacks nor take the reader thread down (the scenario of the C10 check, judged here by
+    # "every later line still reaches the callbacks, nothing is disconnected")
+    from .c10_threads import jobs_api_ctor as _ctor_jobs
+    b2check.run_b2(ctx, lambda rng_, th: _ctor_jobs(rng_, th)[:(1500 if th else 60)], ["C10"],
+                   label="lines arriving while another thread is inside a constructor of the library (callback registered by a half-built object)", accept=False)
     _small = _gen.small_scenarios()
     b2check.run_systematic(ctx, [_small[n] for n in ("reg-in-callback", "close-in-callback", "traffic")], ["C09"], depth=5 if ctx.tier == "thorough" else 3,
                            label="reg-in-callback, close-in-callback, traffic", max_runs=60000 if ctx.tier == "thorough" else 6000)
